@@ -110,5 +110,18 @@ CHECKS = {
                  "non-dispatching paths leave the carry alone and leave the loop; no stale length; dispatcher passes the whole slice to at most "
                  "one handler. Trace equality over chunkings is the lemma's conclusion, not observed.",
          "note": BASE_NOTE + " decodeLength's correctness is C01's subject.", "technique": "path-sensitive def-use / alias analysis of the framer (lemma premises as structural rules)"},
+ "C01": {"text": "Sibling agreement of the codec from layouts extracted out of mqtt/pdu.py by abstract interpretation of the buffer-building code "
+                 "(encoder: symbolic byte segments; decoder: reads at symbolic cursor positions; helpers: radix constants by role): radix/shape "
+                 "agreement of the three primitive pairs, fields read by encode() assigned by decode(), same kind at the same symbolic offset for "
+                 "every combination of optional sections (each announced by a flag bit set under the same guard and read under a test of that "
+                 "bit), flag masks contiguous at the written shift, length prefixes counting the bytes that follow, deterministic encode(). "
+                 "NOT decided: value-level inverse property of the primitives on their numeric domains.",
+         "note": BASE_NOTE + " No byte is ever encoded or decoded by the check.", "technique": "layout extraction (abstract interpretation of encode/decode) + sibling-agreement comparison"},
+ "C02": {"text": "Encoder layouts compared with a table transcribed from the OASIS text: fixed-header byte of all 14 types (PUBLISH flag positions), "
+                 "remaining length measuring exactly the buffers appended after it, body field kinds/order, optional CONNECT sections and flag bit "
+                 "positions, version constants, byte-length prefixes, DUP patching of stored packets at byte 0 only, unrepresentable input raising "
+                 "ValueError/TypeError subclasses (65535 and 268435455 guards). Decoders covered through C01's agreement rules. Value-level "
+                 "equality with a reference encoder is NOT decided.",
+         "note": BASE_NOTE + " The specification table in sa/rules/c02.py is trusted.", "technique": "layout extraction + comparison against a transcribed specification table"},
 }
 NOT_APPLICABLE = {}
